@@ -5,7 +5,10 @@ A scenario is a plain JSON-able dict (it *is* the replay case):
 
     {"rom": [[addr, hex], ...],            # sparse chunks inside 0xC0000..0xFFFFF, rest 00 (= NOP)
      "cfg": {"timer": {"enabled", "mti", "sti"}, "regs": {...}, "card": {"size", "fill"} | None,
-             "windows": [[name, start, len], ...]},
+             "xram": {"start", "size"} | None,  # RAM expansion (Python: expand_ram overlay; Rust: plain RAM)
+             "windows": [[name, start, len], ...],      # bus reads compared after every step
+             "probes": [[name, start, len], ...],       # bus reads compared at the snapshot point / after load
+             "sweep": [offset, stride]},                # strided bus sample of the whole 1 MiB, same moments
      "events": {"<step>": [[kind, key_name, matrix_code], ...]},   # applied before that step
      "n": N, "k": K, "profile": str, "listing": [text, ...]}
 
@@ -42,6 +45,18 @@ IMEM_NAMES = {0xFB: "IMR", 0xFC: "ISR", 0xF0: "KOL", 0xF1: "KOH", 0xF2: "KIL", 0
 
 WINDOWS = [["log", LOG_BASE, LOG_LEN], ["scratch", SCRATCH_RAM, 16], ["stack", STACK_TOP - 48, 48],
            ["ustack", USTACK_TOP - 8, 8], ["card", CARD_BASE, 8]]
+
+# Architectural regions of the 1 MiB external space (pce500/memory.py overlays, sc62015/core/src/pce500.rs map).
+# The LCD controller windows are the only addresses whose *read* changes device state; they are never probed.
+LCD_WINDOWS = ((0x02000, 0x02FFF), (0x0A000, 0x0AFFF))
+CARD_START, CARD_END = 0x40000, 0x4FFFF
+RAM_START = 0xB8000
+ROM_START, ROM_END = 0xC0000, 0xFFFFF
+EDGE = 64  # bytes probed on each side of a region boundary
+SWEEP_REGIONS = (("low", 0x00000, 0x3FFFF), ("card", 0x40000, 0x4FFFF), ("mid", 0x50000, 0xB7FFF),
+                 ("ram", 0xB8000, 0xBFFFF), ("rom", 0xC0000, 0xFFFFF))
+XRAM_STARTS = (0x50000, 0x60000, 0x78000)  # always below the 0x80000 mirror window
+XRAM_SIZES = (0x800, 0x2000, 0x8000)
 
 # key name -> (column, row) as in pce500/keyboard_matrix.py KEY_LOCATIONS (checked by selftest()).
 KEYS = {"KEY_Q": (0, 1), "KEY_A": (0, 3), "KEY_W": (1, 0), "KEY_SPACE": (2, 6), "KEY_ENTER": (4, 7)}
@@ -146,7 +161,45 @@ def selftest() -> None:
         verify(ins)
 
 
-PROFILES = ("timer-irq", "key-irq", "halt", "off-onk", "wait", "lcd", "card", "sio-usr", "mixed")
+PROFILES = ("timer-irq", "key-irq", "halt", "off-onk", "wait", "lcd", "card", "sio-usr", "mixed",
+            "nested-irq", "key-flood", "edge-mem")
+
+# WAIT idles I cycles (timers and the keyboard scan keep running): short counts exercise "timer about to fire",
+# long counts let slow device state machines (debounce -> auto-repeat -> FIFO overflow) reach their late states.
+WAIT_SHORT = (1, 2, 3, 4, 5, 6)
+WAIT_LONG = (0x18, 0x30, 0x60, 0x90)
+
+
+def edge_addresses(cfg_xram: Optional[Dict[str, int]]) -> List[int]:
+    """Addresses a program may read: first/last bytes of every data-backed region."""
+    out = [ROM_END, ROM_END - 1, ROM_END - 2, IRQ_VEC, ROM_START, ROM_START + 1, ROM_START - 1, RAM_START,
+           CARD_END + 1, CARD_START - 1]
+    if cfg_xram:
+        x0 = int(cfg_xram["start"])
+        x1 = x0 + int(cfg_xram["size"]) - 1
+        out += [x0, x1, x1 - 1, x1 + 1]
+    return out
+
+
+def probes_for(card: Optional[Dict[str, int]], xram: Optional[Dict[str, int]]) -> List[List[Any]]:
+    """[name, start, len] bus ranges around every region boundary (never inside an LCD window)."""
+    pr: List[List[Any]] = [
+        ["bus:low-start", 0x00000, EDGE],
+        ["bus:card-start", CARD_START - EDGE, 2 * EDGE],
+        ["bus:card-end", CARD_END + 1 - EDGE, 2 * EDGE],
+        ["bus:ram-start", RAM_START - EDGE, 2 * EDGE],
+        ["bus:rom-start", ROM_START - EDGE, 2 * EDGE],
+        ["bus:rom-end", ROM_END + 1 - EDGE, EDGE],
+        ["bus:mirror-start", 0x80000 - EDGE, 2 * EDGE],
+    ]
+    if card:
+        pr.append(["bus:card-image-end", CARD_START + int(card["size"]) - EDGE, 2 * EDGE])
+    if xram:
+        x0 = int(xram["start"])
+        x1 = x0 + int(xram["size"])
+        pr.append(["bus:xram-start", x0 - EDGE, 2 * EDGE])
+        pr.append(["bus:xram-end", x1 - EDGE, 2 * EDGE])
+    return pr
 
 
 def _lcd_ops(st: Stream) -> List[Instr]:
@@ -166,11 +219,12 @@ def _lcd_ops(st: Stream) -> List[Instr]:
     return [mv_a_abs(addr), log_a()]
 
 
-def _body(st: Stream, profile: str, n_items: int, in_handler: bool, keys: Sequence[str]) -> List[Instr]:
+def _body(st: Stream, profile: str, n_items: int, in_handler: bool, keys: Sequence[str],
+          edges: Sequence[int] = (ROM_END,), xr: Tuple[int, int] = (0x50000, 0x51FFF)) -> List[Instr]:
     out: List[Instr] = []
     w = {"nop": 2, "inc": 2, "kil": 2, "rd_imem": 2, "wr_imem": 2, "kol": 1, "lcd": 1, "card": 1, "ram": 1,
          "halt": 0, "off": 0, "wait": 0, "call": 1, "stack": 1, "flags": 1, "usr": 0, "isr_clr": 1,
-         "imr": 1, "lcc": 0}
+         "imr": 1, "lcc": 0, "longwait": 0, "edge_rd": 1, "xram": 1}
     if profile == "timer-irq":
         w.update(imr=3, isr_clr=2, rd_imem=3)
     elif profile == "key-irq":
@@ -188,9 +242,22 @@ def _body(st: Stream, profile: str, n_items: int, in_handler: bool, keys: Sequen
     elif profile == "sio-usr":
         w.update(usr=5, lcc=3, kil=3, kol=2)
     elif profile == "mixed":
-        w.update(halt=1, off=1, wait=1, lcd=2, card=2, usr=1, lcc=1, kil=3, kol=2, imr=2)
+        w.update(halt=1, off=1, wait=1, lcd=2, card=2, usr=1, lcc=1, kil=3, kol=2, imr=2, longwait=1)
+    elif profile == "nested-irq":
+        w.update(imr=3, isr_clr=2, rd_imem=4, kil=1, wait=1)
+    elif profile == "key-flood":
+        # keys stay down and nobody drains the queue: no KIL reads, no strobe changes
+        w.update(longwait=6, kil=0, kol=0, rd_imem=3, imr=0, isr_clr=1, wait=1)
+    elif profile == "edge-mem":
+        w.update(edge_rd=6, xram=6, ram=2, card=1)
     if in_handler:
-        w.update(halt=0, off=0, wait=w["wait"] // 3, call=0, isr_clr=w["isr_clr"] + 3, kil=w["kil"] + 1)
+        w.update(halt=0, off=0, wait=w["wait"] // 3, call=0, isr_clr=w["isr_clr"] + 3, kil=w["kil"] + 1,
+                 longwait=0)
+        if profile == "key-flood":
+            w.update(kil=0, isr_clr=1)
+        if profile == "nested-irq":
+            # the only IMR write of this handler is the re-enable placed by generate()
+            w.update(imr=0)
     kinds = [k for k, v in w.items() for _ in range(v)]
     while len(out) < n_items:
         kind = st.choice(kinds)
@@ -211,7 +278,10 @@ def _body(st: Stream, profile: str, n_items: int, in_handler: bool, keys: Sequen
             if st.chance(1, 4):
                 out.append(mv_imem_imm(KOH, st.choice((0x00, 0x07, 0x01))))
         elif kind == "imr":
-            out.append(mv_imem_imm(IMR, st.choice((0x80, 0x85, 0x8F, 0x8F, 0x0F, 0x00, 0x81, 0x84, 0x88))))
+            if profile == "nested-irq":  # keep the master bit and the ON-key/timer sources open
+                out.append(mv_imem_imm(IMR, st.choice((0x8F, 0x8F, 0x8B, 0x8D, 0x89, 0x8E))))
+            else:
+                out.append(mv_imem_imm(IMR, st.choice((0x80, 0x85, 0x8F, 0x8F, 0x0F, 0x00, 0x81, 0x84, 0x88))))
         elif kind == "isr_clr":
             out.append(mv_imem_imm(ISR, st.choice((0x00, 0x00, 0x0B, 0x0E, 0x04, 0x01))))
         elif kind == "usr":
@@ -232,7 +302,18 @@ def _body(st: Stream, profile: str, n_items: int, in_handler: bool, keys: Sequen
         elif kind == "off":
             out.append(OFF)
         elif kind == "wait":
-            out += [mv_i_imm(1 + st.below(6)), WAIT]
+            out += [mv_i_imm(st.choice(WAIT_SHORT)), WAIT]
+        elif kind == "longwait":
+            out += [mv_i_imm(st.choice(WAIT_LONG)), WAIT]
+        elif kind == "edge_rd":
+            out += [mv_a_abs(st.choice(edges)), log_a()]
+        elif kind == "xram":
+            x0, x1 = xr
+            addr = st.choice((x0, x1, x1, x1 - 1, x0 + 1 + st.below(max(1, x1 - x0 - 1))))
+            if st.chance(2, 3):
+                out += [mv_a_imm(st.byte() | 1), mv_abs_a(addr)]
+            else:
+                out += [mv_a_abs(addr), log_a()]
         elif kind == "call":
             out.append(call(SUB))
         elif kind == "stack":
@@ -251,50 +332,107 @@ def _emit(base: int, instrs: Sequence[Instr], listing: List[str]) -> bytes:
     return blob
 
 
+# index -> profile slots: the two profiles whose target state is reached in only a fraction of the scenarios
+# (a handler frame left over after a nested return; a completely full key queue) get extra slots
+PROFILE_SLOTS = PROFILES + ("nested-irq", "nested-irq", "key-flood")
+
+
 def generate(seed: int, index: int, n: int, k: int) -> Dict[str, Any]:
     st = Stream(seed, 0xC16, index)
-    profile = PROFILES[index % len(PROFILES)] if st.chance(3, 4) else st.choice(PROFILES)
+    profile = PROFILE_SLOTS[index % len(PROFILE_SLOTS)] if st.chance(3, 4) else st.choice(PROFILE_SLOTS)
     keys = list(KEYS)
     nkeys = 1 + st.below(3)
+    if profile == "key-flood":
+        nkeys = 2 + st.below(2)
     used_keys = [keys[(st.below(len(keys)) + i) % len(keys)] for i in range(nkeys)]
     used_keys = sorted(set(used_keys))
+
+    # memory configuration (decided first: the program reads/writes the region edges it defines)
+    card = {"size": 8192, "fill": st.byte()} if (profile == "card" or st.chance(1, 4)) else None
+    xram = None
+    if profile == "edge-mem" or st.chance(1, 4):
+        xram = {"start": st.choice(XRAM_STARTS), "size": st.choice(XRAM_SIZES)}
+    xr = (xram["start"], xram["start"] + xram["size"] - 1) if xram else (0x50000, 0x51FFF)
+    edges = edge_addresses(xram)
 
     listing: List[str] = []
     # prologue: interrupt mask, key strobes
     pro: List[Instr] = []
     imr0 = st.choice((0x8F, 0x8F, 0x85, 0x84, 0x81, 0x88, 0x0F, 0x00))
+    if profile == "nested-irq":
+        imr0 = st.choice((0x8F, 0x8F, 0x8B, 0x8D, 0x89))
+    elif profile == "key-flood":
+        # the main timer (whose tick scans the keyboard) is never delivered, so the main loop keeps running and
+        # idling; the key interrupt is masked, or delivered to a handler that never reads KIL
+        imr0 = st.choice((0x8A, 0x0B, 0x00, 0x88, 0x8A, 0x8C))
     pro.append(mv_imem_imm(IMR, imr0))
-    if profile in ("key-irq", "halt", "mixed", "sio-usr") or st.chance(1, 2):
+    if profile == "key-flood":
+        pro.append(mv_imem_imm(KOL, 0xFF))
+    elif profile in ("key-irq", "halt", "mixed", "sio-usr", "nested-irq") or st.chance(1, 2):
         cols = [KEYS[kname][0] for kname in used_keys]
         mask = 0
         for c in cols:
             if st.chance(3, 4):
                 mask |= 1 << c
         pro.append(mv_imem_imm(KOL, mask & 0xFF))
-    body = _body(st, profile, 5 + st.below(9), False, used_keys)
+    body = _body(st, profile, 5 + st.below(9), False, used_keys, edges, xr)
     # the profile's signature instruction is guaranteed to be in the main loop
-    sig = {"halt": [HALT], "off-onk": [OFF], "wait": [mv_i_imm(1 + st.below(6)), WAIT]}.get(profile)
+    sig = {"halt": [HALT], "off-onk": [OFF], "wait": [mv_i_imm(st.choice(WAIT_SHORT)), WAIT],
+           "key-flood": [mv_i_imm(st.choice(WAIT_LONG)), WAIT]}.get(profile)
     if sig and not any(i[0] == sig[-1][0] for i in body):
         pos = st.below(len(body) + 1)
         body = body[:pos] + sig + body[pos:]
     body_len = sum(len(i[0]) for i in body)
+    while body_len + 2 > 0xFF:  # JR -n reach
+        body.pop()
+        body_len = sum(len(i[0]) for i in body)
     loop = body + [jr_back(body_len + 2)]
     main_blob = _emit(MAIN, pro + loop, listing)
-    handler = _body(st, profile, 2 + st.below(5), True, used_keys) + [RETI]
+    if profile == "nested-irq":
+        # the handler re-enables the master bit (and a generated subset of sources) near its start, so a second
+        # request raised while it runs is delivered inside it
+        # (mostly without the timer sources: the interrupted handler's own, still-set status bit would otherwise
+        # be re-delivered one instruction after every inner RETI and the outer handler would never resume)
+        reen = mv_imem_imm(IMR, st.choice((0x88, 0x88, 0x88, 0x8C, 0x8A, 0x89, 0x8F)))
+        hb = _body(st, profile, 8 + st.below(7), True, used_keys, edges, xr)
+        pos = st.below(2)
+        handler = hb[:pos] + [reen] + hb[pos:] + [RETI]
+    else:
+        handler = _body(st, profile, 2 + st.below(5), True, used_keys, edges, xr) + [RETI]
     handler_blob = _emit(HANDLER, handler, listing)
     sub = [st.choice((inc_imem(0x12), INC_A, NOP)), RET]
     sub_blob = _emit(SUB, sub, listing)
     vec = bytes([HANDLER & 0xFF, (HANDLER >> 8) & 0xFF, (HANDLER >> 16) & 0xFF,
                  MAIN & 0xFF, (MAIN >> 8) & 0xFF, (MAIN >> 16) & 0xFF])
     rom = [[MAIN, main_blob.hex()], [HANDLER, handler_blob.hex()], [SUB, sub_blob.hex()], [IRQ_VEC, vec.hex()]]
+    # generated filler at both ends of the ROM window (otherwise 00): a lost or shifted byte must be visible
+    rom.append([ROM_START + 0x3000, bytes(st.byte() | 0x01 for _ in range(16)).hex()])
+    rom.append([ROM_END + 1 - 0x40, bytes(st.byte() | 0x01 for _ in range(0x40 - 6)).hex()])
 
     timer_on = st.chance(5, 6) if profile != "off-onk" else st.chance(1, 2)
+    mti = st.choice((2, 3, 3, 5, 7, 11, 16))
+    sti = st.choice((13, 29, 64, 1000))
+    if profile == "nested-irq":
+        # handler entries every few main-loop instructions, so that most ON-key taps arrive inside a handler
+        timer_on = True
+        mti = st.choice((11, 16, 23, 37))
+        sti = st.choice((7, 13, 13, 29))
+    elif profile == "key-flood":
+        timer_on = True
+        mti = st.choice((2, 2, 3, 5))
+    # per-step windows are also compared across the two models after a cross-load, so they stay inside regions
+    # both models map the same way (e.g. not into the 0x80000 internal-RAM mirror of the Rust core); what lies
+    # beyond a region's end is covered by the per-model bus probes
+    windows = [list(w) for w in WINDOWS] + [["rom-end", ROM_END - 7, 8], ["rom-start", ROM_START - 4, 8],
+                                            ["xram-end", xr[1] - 7, 8], ["xram-start", xr[0], 6]]
     cfg: Dict[str, Any] = {
-        "timer": {"enabled": bool(timer_on), "mti": st.choice((2, 3, 3, 5, 7, 11, 16)),
-                  "sti": st.choice((13, 29, 64, 1000))},
+        "timer": {"enabled": bool(timer_on), "mti": mti, "sti": sti},
         "regs": {"S": STACK_TOP, "U": USTACK_TOP, "X": LOG_BASE, "Y": 0x12345},
-        "card": {"size": 8192, "fill": st.byte()} if (profile == "card" or st.chance(1, 4)) else None,
-        "windows": WINDOWS,
+        "card": card,
+        "xram": xram,
+        "windows": windows,
+        "probes": probes_for(card, xram),
+        "sweep": [st.below(1021), 1021],
         # Rust only: "pce500" builds the machine through pce500::load_pce500_rom_window (device memory map with its
         # write-protected windows), "bare" through CoreRuntime::load_rom alone.
         "map": "pce500" if st.chance(1, 2) else "bare",
@@ -304,18 +442,41 @@ def generate(seed: int, index: int, n: int, k: int) -> Dict[str, Any]:
     events: Dict[str, List[List[Any]]] = {}
     pressed: set = set()
     on_down = False
-    rate = {"key-irq": 5, "halt": 6, "off-onk": 6, "sio-usr": 6, "mixed": 6}.get(profile, 12)
+    rate = {"key-irq": 5, "halt": 6, "off-onk": 6, "sio-usr": 6, "mixed": 6, "nested-irq": 4,
+            "key-flood": 16}.get(profile, 12)
+    if profile == "nested-irq":
+        # ON-key double taps: the first press starts a handler when none is running, the second one 2-6 steps
+        # later arrives inside it (after it re-enabled the master bit) and is delivered nested; then a pause of
+        # two handler lengths or more so that the inner handler returns and the outer one resumes and returns too
+        rate = 10
+        gap_max = st.choice((4, 10, 20))
+        j = 1 + st.below(8)
+        while j < n + k:
+            d = 2 + st.below(5)
+            for t in (j, j + d):
+                events.setdefault(str(t), []).append(["on_press", "KEY_ON", 0])
+                events.setdefault(str(t + 1), []).append(["on_release", "KEY_ON", 0])
+            j += d + 2 * len(handler) + st.below(gap_max)
+    if profile == "key-flood":
+        # all keys go down right at the start and mostly stay down
+        for i, key in enumerate(used_keys):
+            events.setdefault(str(i), []).append(["press", key, matrix_code(key)])
+            pressed.add(key)
     for j in range(n + k):
         if not st.chance(1, rate):
             continue
+        if profile == "key-flood" and j < len(used_keys):
+            continue
         r = st.below(10)
         ev: Optional[List[Any]] = None
+        if profile == "nested-irq" and r == 0:
+            continue  # ON-key taps of this profile are already placed
         if profile == "off-onk" and r < 4 or r == 0:
             if on_down:
                 ev, on_down = ["on_release", "KEY_ON", 0], False
             else:
                 ev, on_down = ["on_press", "KEY_ON", 0], True
-        elif pressed and r < 5:
+        elif pressed and r < (2 if profile == "key-flood" else 5):
             key = sorted(pressed)[st.below(len(pressed))]
             pressed.discard(key)
             ev = ["release", key, matrix_code(key)]
